@@ -38,9 +38,9 @@ SELFTESTS = (
     ("MC_mut_skip_last.cfg", "SweepOrder", "sweep range one block short"),
     ("MC_mut_stale_prev.cfg", "CanonAtUpdate", "previous direction kept across solve() calls but not updated on convergence"),
     ("MC_kf1.cfg", "WiringMatchesApply", "KF-C10-1: ket attached to the operator's upper leg"),
-    ("MC_kf2.cfg", "EndNormalizedAnyCap", "KF-C10-2: last split truncates when cap < d, no renormalisation"),
+    ("MC_mut_no_renorm.cfg", "EndNormalizedAnyCap", "two-site split without renormalisation: last split truncates when cap < d"),
     ("MC_kf3.cfg", "CanonAtUpdateAlways", "KF-C10-3: one-site alternate sweep not canonized after the bond expansion"),
-    ("MC_kf5.cfg", "PosInRange", "KF-C10-5: L = bsz, left sweep: init_segment uses an unbound loop variable"),
+    ("MC_mut_unbound_i.cfg", "PosInRange", "L = bsz, left sweep: init_segment(begin='right') uses its unbound loop variable"),
 )
 
 
@@ -372,7 +372,7 @@ def run(ctx):
     ctx.extra["enumerated_scripts"] = len(cases)
     if quick:       # quick: every script (all restart histories of <= 3 sweeps) on the shortest chain
         # (and, of the histories made of three one-sweep calls, every second one)
-        cases = [c for c in cases if c["L"] == 3]
+        cases = [c for c in cases if c["L"] == 3 or (c["L"] == 2 and c["bsz"] == 2 and len(c["script"]) <= 2)]   # L = 2: L = bsz for DMRG2
         def ncalls(c):
             return sum(1 for x in c["script"] if x["newcall"])
 
@@ -419,10 +419,10 @@ def run(ctx):
     ctx.extra["notes_count"] = len(notes)
     ctx.clauses.update(["Returns", "InputIsHermitian", "ConventionPinned", "OracleAgrees", "ScheduleFollowed", "CanonizedWhenNeeded", "SweepOrder",
                         "SweepComplete", "NoStaleEnv", "TotalEnergyIsExpectation", "ReportedEqualsMeasured", "RoutesAgree",
-                        "Variational", "Monotone", "BondCap", "FullRankKeepsNorm", "Normalized", "EnergyIsLastUpdate",
+                        "Variational", "Monotone", "BondCap", "UpdateKeepsNorm", "Normalized", "EnergyIsLastUpdate",
                         "EnergiesAreSweepEnds", "StopsWhenConverged", "ConvergedExact", "TraceWellFormed",
                         "ReportedEqualsMeasured.Periodic", "Normalized.Periodic",
-                        "model: NoStaleEnv CanonAtUpdate PosInRange SweepOrder ReportedIsCurrent BondCap EndNormalized"])
+                        "model: NoStaleEnv CanonAtUpdate PosInRange SweepOrder ReportedIsCurrent BondCap EndNormalizedAnyCap"])
     ctx.assumptions += [
         "open boundaries in the main runs; which='SA'; float64/complex128 tensors",
         "one-site DMRG: non-decreasing bond schedules and p0 within the cap (bond_dims is the size the state is expanded to)",
